@@ -177,6 +177,16 @@ func run(c *mc.Ctx, u mc.Unit) {
 	defer os.RemoveAll(dir)
 	node := sk.Open(sk.Bridge, dir)
 	defer func() { node.Close() }()
+	// a panic of the code under test while it handles a valid deposit is reported as a violation
+	// (the engine's own control-flow panics are passed on)
+	defer func() {
+		if x := recover(); x != nil {
+			if strings.HasPrefix(fmt.Sprintf("%T", x), "mc.") {
+				panic(x)
+			}
+			c.Failf("store/panic-on-valid-input", "unit %s choices %v: panic: %v", u.Name, c.Choices, x)
+		}
+	}()
 	switch p.Space {
 	case "leaf":
 		runLeaf(c, p, node)
